@@ -1,5 +1,6 @@
 import Driver.Common
 import LinkVerif.Model.Protocol
+import LinkVerif.Model.Node
 
 namespace Driver.C01
 open Go.Proto Model.Protocol Driver
@@ -43,15 +44,98 @@ def checkHist (toks : List String) : String :=
       | none => base
   | _, _, _ => "bad-op"
 
-def step (s : Unit) (toks : List String) : Unit × String :=
+/-! ## step-level node model (`ns` ops): every handled input of every correct node, replayed through `Model.Node.step` -/
+
+open Model.Node in
+/-- per case: whether a `sim` op was seen, and per node the model state and the index of the next expected step -/
+structure NS where
+  sim : Bool
+  nodes : List (Nat × (Model.Node.St × Nat))
+
+def NS.init : NS := { sim := false, nodes := [] }
+
+open Model.Node in
+def renderOut (s : St) : String :=
+  let dash (xs : List String) : String := if xs.isEmpty then "-" else ";".intercalate xs
+  let msgs := s.out.flatMap (fun o => match o with
+    | .proposal h r pol v => [s!"prop({h},{r},{pol},{v})", s!"parts({s.totalOf v})"]
+    | .vote t h r v => [s!"vote({t},{h},{r},{v})"]
+    | _ => [])
+  let tos := s.out.filterMap (fun o => match o with | .timeout h r st => some s!"to({h},{r},{st})" | _ => none)
+  let cms := s.out.filterMap (fun o => match o with | .commit h r v => some s!"commit({h},{r},{v})" | _ => none)
+  s!"msgs={dash msgs} tos={dash tos} commit={dash cms}"
+
+open Model.Node in
+def renderSt (s : St) : String :=
+  if s.dead then "panic" else
+  let pbp := match s.pbp with | some ps => s!"{ps.v}/{ps.got.length}" | none => "-"
+  s!"h={s.height} r={s.round} s={s.step} lr={s.lockedRound} lb={s.lockedValue} vr={s.validRound} vb={s.validValue} pb={s.pb} prop={if s.proposal.isSome then 1 else 0} cr={s.commitRound} pbp={pbp} {renderOut s}"
+
+open Model.Node in
+def parseIn (toks : List String) : Option In :=
+  let nat (k : String) := argNat? toks k
+  let int (k : String) := argInt? toks k
+  let bool (k : String) := (argNat? toks k).map (· != 0)
+  match arg? toks "ev" with
+  | some "proposal" => do
+      some (.proposal (← nat "h") (← nat "r") (← int "pol") (← nat "v") (← nat "tot") (← int "by") (← nat "typ"))
+  | some "part" => do
+      let idx ← int "i"
+      -- a negative part index is rejected by AddPart like an index beyond the total
+      let idx : Nat := if idx < 0 then 1000000000 else idx.toNat
+      some (.part (← nat "h") (← nat "r") (← nat "pv") idx (← bool "vok") (← bool "cok"))
+  | some "vote" => do
+      some (.vote (← nat "t") (← nat "h") (← nat "r") (← nat "idx") (← nat "v") (← nat "tot") (← nat "src") (← bool "ok"))
+  | some "timeout" => do some (.timeout (← nat "h") (← nat "r") (← nat "st"))
+  | some "txs" => some .txs
+  | some "maj23" => do some (.maj23 (← nat "r") (← nat "t") (← nat "src") (← nat "v") (← nat "tot"))
+  | _ => none
+
+open Model.Node in
+def initOf (toks : List String) : Option St := do
+  let me ← argNat? toks "me"
+  let powers ← argInts? toks "powers"
+  let accums ← argInts? toks "accums"
+  let prop ← argInt? toks "prop"
+  let h ← argNat? toks "h"
+  let maxParts ← argNat? toks "maxparts"
+  let vals : List Model.ValSet.Val := (List.range powers.length).map (fun i =>
+    { addr := i, power := powers.getD i 0, accum := accums.getD i 0 })
+  let vs : Model.ValSet.VS := { vals := vals, proposer := if prop < 0 then none else some prop.toNat }
+  some (initSt me (powers.map Int.toNat) maxParts h vs)
+
+open Model.Node in
+def nsStep (st : NS) (toks : List String) : NS × String :=
+  if !st.sim then (st, "nosim") else
+  match argNat? toks "node", argNat? toks "k" with
+  | some node, some k =>
+    let cur := alookup st.nodes node
+    let next := match cur with | some (_, nk) => nk | none => 0
+    if k ≠ next then (st, "skip") else
+    if arg? toks "ev" == some "init" then
+      match initOf toks with
+      | some s => ({ st with nodes := aset st.nodes node (s, 1) }, renderSt s)
+      | none => (st, "bad-op")
+    else
+      match cur, parseIn toks with
+      | some (s, _), some i =>
+        let nv := (argNat? toks "nv").getD 0
+        let nvt := (argNat? toks "nvt").getD 0
+        let s' := step (learn { s with fresh := nv } nv nvt) i
+        ({ st with nodes := aset st.nodes node (s', k + 1) }, renderSt s')
+      | _, _ => (st, "bad-op")
+  | _, _ => (st, "bad-op")
+
+def step (s : NS) (toks : List String) : NS × String :=
   match toks with
-  | "case" :: _ => (s, "ok")
-  | "sim" :: _ => (s, "ok")
+  | "case" :: _ => (NS.init, "ok")
+  | "sim" :: _ => ({ s with sim := true }, "ok")
   -- the claim itself: no correct node dies, is killed after a commit, or votes for an invalid block
   | "diag" :: _ => (s, "dead=0 killed=0 badvotes=0")
   | "hist" :: _ => (s, checkHist toks)
+  | "ns" :: _ => nsStep s toks
   | _ => (s, "bad-op")
 
-def machine : Machine := { σ := Unit, init := (), step := step }
+def machine : Machine := { σ := NS, init := NS.init, step := step }
 
 end Driver.C01
